@@ -1,7 +1,9 @@
 pub mod api;
+pub mod bfs;
 pub mod cli;
 pub mod gen;
 pub mod hist;
+pub mod iters;
 pub mod model;
 pub mod ops;
 pub mod rng;
@@ -9,7 +11,12 @@ pub mod snap;
 pub mod types;
 
 /// replay of the non-history modes (iterator scripts, crash points, ...)
-pub fn replay_other(mode: &str, _rp: &serde_json::Value, _a: &cli::Args, _sink: &mut cli::Sink) -> i32 {
-    eprintln!("replay: unknown mode {}", mode);
-    2
+pub fn replay_other(mode: &str, rp: &serde_json::Value, a: &cli::Args, sink: &mut cli::Sink) -> i32 {
+    match mode {
+        "iters" => iters::replay(rp, a, sink),
+        _ => {
+            eprintln!("replay: unknown mode {}", mode);
+            2
+        }
+    }
 }
